@@ -391,3 +391,37 @@ where
     | r :: rs => printLoad r :: printLoadList rs
 
 end AM.Config
+
+/-! ### the deprecated regular-expression maps (`match_re`, `source_match_re`, `target_match_re`)
+
+`config/common.Regexp` is a compiled expression plus its source text.  The zero value (nothing compiled) is what a YAML
+`null` decodes to, and `MatchRegexps.UnmarshalYAML` refuses a map holding one ("invalid regexp value").  `compiles` is
+the parameter standing for `regexp.Compile`. -/
+namespace AM.Config
+
+/-- `Regexp`: `compiled` = the embedded `*regexp.Regexp` is non-nil. -/
+structure Rx where
+  compiled : Bool
+  original : String
+  deriving DecidableEq, Repr
+
+/-- a YAML scalar as far as these maps are concerned -/
+inductive Scalar where
+  | null
+  | str (s : String)
+  deriving DecidableEq, Repr
+
+/-- `Regexp.MarshalYAML` after F13: a compiled expression prints its source text, also when that is empty. -/
+def Rx.print (r : Rx) : Scalar :=
+  if r.original ≠ "" ∨ r.compiled then .str r.original else .null
+
+/-- `Regexp.MarshalYAML` as pinned: the empty source text printed as `null`. -/
+def Rx.printOld (r : Rx) : Scalar :=
+  if r.original ≠ "" then .str r.original else .null
+
+/-- `Regexp.UnmarshalYAML` + the check of `MatchRegexps.UnmarshalYAML`: `null` leaves the zero value, which is refused. -/
+def Rx.load (compiles : String → Bool) : Scalar → Option Rx
+  | .null => none
+  | .str s => if compiles s then some ⟨true, s⟩ else none
+
+end AM.Config
